@@ -4,6 +4,7 @@ import Momo.Proof.ArrSegFaultOps
 import Momo.Proof.BTreeFaultCopy
 import Momo.Proof.HTLedgerCons
 import Momo.Proof.HTLedgerStrong
+import Momo.Proof.MMLedgerSys
 /-!
 # C04 — Strongly exception-safe operations leave the container unchanged on failure
 
@@ -657,3 +658,100 @@ example : ((step x5Cfg id x5Sys (.copyTo { copyStop := some 1 })).1.w.evs.drop x
 example : x5Hold (step x5Cfg id x5Sys (.copyTo {})).1 = some (7, 6) := by decide
 
 end Momo.HTL
+
+
+/-!
+## C04 for `momo::HashMultiMap` with the ledger (`Momo.MML`, the layer described under C03)
+
+"All `HashMultiMap` functions and constructors have strong exception safety, but not … functions `Add` receiving many items …
+function `Remove` receiving predicate" (HashMultiMap.h:545-553).  `OpPost cfg st FB FE st' w' failed`: after the operation the
+monitor holds exactly the books of `st'` plus the frame, the key table's books are well-formed, and if the operation `failed`
+then `st' = st` - the container (contents: key table, every value array with its representation; books: every block and object)
+is the same, so the monitor holds exactly what it held: nothing leaked, nothing destroyed.
+-/
+namespace Momo.MML
+open Momo Momo.HT Momo.Ledger Momo.HTL
+
+/-- **`Add(key, value)`** (`pvAdd`): fails when a functor throws in the lookup; for a present key when the pool block / heap storage
+of the value array is refused or the value creator / a relocating copy throws; for a new key when the bucket array (without
+fallback) or `BucketParams` is refused, the key copy throws, or the one-value array cannot be made. -/
+theorem C04_multimap_add_strong (cfg : Cfg) (hf : Nat → Nat) (st : St) (k tg v : Nat) (f : Flt) (w : W) (FB : List Blk) (FE : List Nat)
+    (hb : HTL.BooksOK st.kt) (h : Led w (st.blocks cfg ++ FB) (st.elems ++ FE)) :
+    OpPost cfg st FB FE (addL cfg hf st k tg v f w).1 (addL cfg hf st k tg v f w).2.1 ((addL cfg hf st k tg v f w).2.2 ≠ .done .ok) :=
+  addL_led cfg hf st k tg v f w FB FE hb h
+
+/-- **`Add(keyIter, value)`** -/
+theorem C04_multimap_addAt_strong (cfg : Cfg) (hf : Nat → Nat) (st : St) (k v : Nat) (f : Flt) (w : W) (FB : List Blk) (FE : List Nat)
+    (hb : HTL.BooksOK st.kt) (h : Led w (st.blocks cfg ++ FB) (st.elems ++ FE)) :
+    OpPost cfg st FB FE (addAtL cfg hf st k v f w).1 (addAtL cfg hf st k v f w).2.1 ((addAtL cfg hf st k v f w).2.2 ≠ .done .ok) :=
+  addAtL_led cfg hf st k v f w FB FE hb h
+
+/-- **`InsertKey(key)`** -/
+theorem C04_multimap_insertKey_strong (cfg : Cfg) (hf : Nat → Nat) (st : St) (k tg : Nat) (f : Flt) (w : W) (FB : List Blk)
+    (FE : List Nat) (hb : HTL.BooksOK st.kt) (h : Led w (st.blocks cfg ++ FB) (st.elems ++ FE)) :
+    OpPost cfg st FB FE (insertKeyL cfg hf st k tg f w).1 (insertKeyL cfg hf st k tg f w).2.1
+      ((insertKeyL cfg hf st k tg f w).2.2 ≠ .done .ok) :=
+  insertKeyL_led cfg hf st k tg f w FB FE hb h
+
+/-- **`Remove(keyIter, valueIndex)` / `Remove(iter)`**: fails only when `AssignAnywayValue` throws (values that are not
+nothrow-anyway-assignable), before anything has happened; a refused allocation inside `Array::Shrink` is swallowed (the removal
+succeeds, the array keeps its storage). -/
+theorem C04_multimap_remove_strong (cfg : Cfg) (hf : Nat → Nat) (st : St) (k i : Nat) (f : Flt) (w : W) (FB : List Blk) (FE : List Nat)
+    (hb : HTL.BooksOK st.kt) (h : Led w (st.blocks cfg ++ FB) (st.elems ++ FE)) :
+    OpPost cfg st FB FE (removeValueL cfg hf st k i f w).1 (removeValueL cfg hf st k i f w).2.1
+      ((removeValueL cfg hf st k i f w).2.2 ≠ .done .ok) :=
+  removeValueL_led cfg hf st k i f w FB FE hb h
+
+/-- **`RemoveKey(key)`**: fails when a functor throws in the lookup or the key assignment inside the key table's removal throws
+(the value array, moved aside, is put back: `valueArray = std::move(tempValueArray)`). -/
+theorem C04_multimap_removeKey_strong (cfg : Cfg) (hf : Nat → Nat) (st : St) (k : Nat) (f : Flt) (w : W) (FB : List Blk) (FE : List Nat)
+    (hb : HTL.BooksOK st.kt) (h : Led w (st.blocks cfg ++ FB) (st.elems ++ FE)) :
+    OpPost cfg st FB FE (removeKeyL cfg hf st k f w).1 (removeKeyL cfg hf st k f w).2.1
+      ((removeKeyL cfg hf st k f w).2.2.1 ≠ .done .ok) :=
+  removeKeyL_led cfg hf st k f w FB FE hb h
+
+/-- **constructors leave nothing behind when they fail**: the default constructor (key table crew, value crew) and the copy
+constructor (crews, `Reserve`, for every key the copy of its value array and the insertion; a failure at any key, any value, any
+block clears the arrays copied so far, returns every pool buffer and both crews) either produce a container whose books the
+monitor holds, or leave the monitor holding exactly the frame. -/
+theorem C04_multimap_constructor_clean (cfg : Cfg) (hf : Nat → Nat) (src : St) (f0 : Flt) (f : Nat → Flt) (w : W) (FB : List Blk)
+    (FE : List Nat) (hs : ∀ k, ∀ e ∈ (getV src.vbs k).objs, e ∈ FE) (h : Led w FB FE) :
+    CtorPost cfg FB FE (newL cfg f0 w) ∧ CtorPost cfg FB FE (copyL cfg hf src f0 f w) :=
+  ⟨newL_led cfg f0 w FB FE h, copyL_led cfg hf src f0 f w FB FE hs h⟩
+
+/-- **the system level: a failing strongly exception-safe operation** (everything but `Remove(pairFilter)`; copy assignment
+included) **leaves both containers - contents and books - exactly as they were**, in every state in which the monitor holds the
+books. -/
+theorem C04_multimap_step_strong (cfg : Cfg) (hf : Nat → Nat) (s : Sys) (op : Op) (h : SysOK cfg s) (hs : op.strong = true)
+    (hfail : (step cfg hf s op).2.failed = true) : (step cfg hf s op).1.a = s.a ∧ (step cfg hf s op).1.b = s.b :=
+  step_strong cfg hf s op h hs hfail
+
+/-- **… and whatever an operation did, failed or not (`Remove(pairFilter)` stopped half-way included), the monitor holds exactly
+the new books**: the containers stay usable and destructible (`C03_multimap_history_balanced`). -/
+theorem C04_multimap_usable_after (cfg : Cfg) (hf : Nat → Nat) (s : Sys) (o : OpT) (h : SysOK cfg s) : SysOK cfg (stepT cfg hf s o).1 :=
+  stepT_ok cfg hf s o h
+
+/-- every reachable state satisfies the hypothesis of the two theorems above -/
+theorem C04_multimap_reachable_ok (cfg : Cfg) (hf : Nat → Nat) (ops : List OpT) : SysOK cfg (run cfg hf (Sys.init cfg) ops) :=
+  run_ok cfg hf ops _ (sysOK_init cfg)
+
+/-! Non-vacuity: key 1 holds five values in a heap array (Open8-like key table, `maxFastCount = 2`); failing operations exist
+and - by the theorem above, here by evaluation - change nothing. -/
+def x6Cfg : Cfg :=
+  { h := { sp := { maxCount := 7, quad := true, fullFrom := 7, unlimited := false, bound := .none, cap := .base, baseShift := true,
+                   logStart := 1, nothrowReloc := true },
+           cat := .nmove, hdr := 24, bsz := 120, psz := 8, csz := 16 },
+    mf := 2, vcat := .nmove, isz := 8, vsz := 200 }
+def x6Sys : Sys := run x6Cfg id (Sys.init x6Cfg)
+  [{ op := .add false 1 0 10 {} }, { op := .add false 1 0 11 {} }, { op := .add false 1 0 12 {} }, { op := .add false 1 0 13 {} },
+   { op := .add false 1 0 14 {} }, { op := .add false 2 0 20 {} }]
+example : (getV x6Sys.a.vbs 1).arr.rep = .heap 8 := by decide +kernel
+example : (step x6Cfg id x6Sys (.add false 1 0 99 { v := { create := true } })).2.failed = true ∧
+    (step x6Cfg id x6Sys (.add false 7 0 99 { k := { create := true } })).2.failed = true ∧
+    (step x6Cfg id x6Sys (.copyTo { vcrew := true } (fun _ => {}))).2.failed = true := by decide +kernel
+/-- the heap array has room (5 of 8): the throwing value creator fails before anything has happened - no event, same books -/
+example : ((step x6Cfg id x6Sys (.add false 1 0 99 { v := { create := true } })).1.w.evs.drop x6Sys.w.evs.length).length = 0 ∧
+    (step x6Cfg id x6Sys (.add false 1 0 99 { v := { create := true } })).1.a.vbs.map (fun p => (p.1, p.2.objs, p.2.heap)) =
+      x6Sys.a.vbs.map (fun p => (p.1, p.2.objs, p.2.heap)) := by decide +kernel
+
+end Momo.MML
